@@ -34,8 +34,9 @@ CONSTANTS
     Known        \* set of known-finding ids tolerated by the invariants
 
 (* kinds: "deposit", "transfer" (ordinary) ; "pledge" (consensus class, needs
-   AddNodeOperation) ; "accept" (consensus class, round 0 of a new chain)     *)
-Consensus(s) == Def[s].kind \in {"pledge", "accept"}
+   AddNodeOperation) ; "accept" (consensus class, round 0 of a new chain) ;
+   "mint" (consensus class, LockMintInput)                                    *)
+Consensus(s) == Def[s].kind \in {"pledge", "accept", "mint"}
 
 VARIABLES
     ghost, nodeop, lock, body,   \* durable sets of snapshots (their sole transaction)
@@ -66,7 +67,9 @@ PhaseName(s, p) ==
     ELSE CASE p = 1 -> "StartNewRound"
            [] p = 2 -> "LockGhostKeys"
            [] p = 3 -> "AddNodeOperation"
-           [] p = 4 -> IF Def[s].kind = "deposit" THEN "LockDepositInput" ELSE "LockUTXOs"
+           [] p = 4 -> CASE Def[s].kind = "deposit" -> "LockDepositInput"
+                         [] Def[s].kind = "mint"    -> "LockMintInput"
+                         [] OTHER                   -> "LockUTXOs"
            [] p = 5 -> "WriteTransaction"
            [] p = 6 -> "-"
            [] p = 7 -> "WriteSnapshot"
@@ -147,7 +150,7 @@ Step(s) ==
         /\ UNCHANGED startedInTopo
         /\ ghost'  = IF n = "LockGhostKeys" THEN ghost \cup {s} ELSE ghost
         /\ nodeop' = IF n = "AddNodeOperation" THEN nodeop \cup {s} ELSE nodeop
-        /\ lock'   = IF n \in {"LockUTXOs", "LockDepositInput"} THEN lock \cup {s} ELSE lock
+        /\ lock'   = IF n \in {"LockUTXOs", "LockDepositInput", "LockMintInput"} THEN lock \cup {s} ELSE lock
         /\ body'   = IF n = "WriteTransaction" THEN body \cup {s} ELSE body
         /\ head'   = IF n = "StartNewRound" THEN [head EXCEPT ![c] = @ + 1] ELSE head
         /\ topo'   = IF n = "WriteSnapshot" THEN Append(topo, s) ELSE topo
